@@ -300,7 +300,10 @@ func classifyBySite(rep string) string {
 		if sd.kind == "write" && !sd.atomic && strings.Contains(sd.fn, "ExpireAll") && reEStore.MatchString(sd.src) {
 			return "entryE"
 		}
-		if sd.atomic && reCUpd.MatchString(sd.src) && other.kind == "read" && !other.atomic {
+		// F9b is PrepareRead's atomic counter update against the plain struct copies of Walk / Dump / the entry accessors -
+		// a plain read of C anywhere else is a different race
+		if sd.atomic && reCUpd.MatchString(sd.src) && other.kind == "read" && !other.atomic &&
+			(strings.Contains(other.fn, ").Walk") || strings.Contains(other.fn, ").Dump") || strings.Contains(other.fn, "TraitEntry).") || strings.Contains(other.fn, "TraitEntryOf[")) {
 			return "entryC"
 		}
 	}
